@@ -17,6 +17,7 @@ import (
 
 	"github.com/opencontainers/go-digest"
 	ocispec "github.com/opencontainers/image-spec/specs-go/v1"
+	oras "oras.land/oras-go/v2"
 	"oras.land/oras-go/v2/registry"
 	"oras.land/oras-go/v2/registry/remote"
 	"verifharness/common"
@@ -559,5 +560,92 @@ func regOpCase(name, op string, plain bool, last string, n int) {
 	host := registry.Reference{Registry: name}.Host()
 	if q.Method != "GET" || q.URL.Host != host || q.URL.User != nil || q.URL.Fragment != "" || q.URL.EscapedPath() != path || !okq {
 		run.OracleFail(id, "regop-url", fmt.Sprintf("%s(%q,%d) on registry %q sent %s %s; want GET //%s%s with query exactly %v", op, last, n, name, q.Method, q.URL, host, path, want), rep)
+	}
+}
+
+// ---------- top-level oras.Tag / oras.TagN on a remote Repository ----------
+
+// orasTagCase: oras.Tag (one destination) / oras.TagN (Concurrency 1) from src to dsts.  Oracle:
+// every request is in the base repository's manifest slot; when src and all destinations are
+// given in forms whose resolved reference is known (wantSrc / wantDsts, "" = unknown), the GET names
+// the resolved source and the PUTs name the resolved destinations, in order.
+func orasTagCase(base registry.Reference, plain bool, src string, dsts []string, wantSrc string, wantDsts []string) {
+	id := run.NewID()
+	if wedges >= 3 {
+		return
+	}
+	t := &recTransport{}
+	repo := &remote.Repository{Reference: base, PlainHTTP: plain, Client: &http.Client{Transport: t}}
+	if run.Rand.Bool() {
+		repo.SetReferrersCapability(true)
+	}
+	hung := t.guard(func(ctx context.Context) {
+		if len(dsts) == 1 && run.Rand.Bool() {
+			oras.Tag(ctx, repo, src, dsts[0])
+		} else {
+			oras.TagN(ctx, repo, src, dsts, oras.TagNOptions{Concurrency: 1})
+		}
+	})
+	reqs := t.requests()
+	rep := map[string]any{"op": "T", "plain": plain, "registry": base.Registry, "repository": base.Repository, "input": src, "dsts": strings.Join(dsts, "\x00")}
+	if hung || t.runaway {
+		wedges++
+		run.OracleFail(id, "op-hang", fmt.Sprintf("oras.TagN(%q -> %q) on %v did not return (%d requests)", src, dsts, base, len(reqs)), rep)
+		return
+	}
+	var sb strings.Builder
+	sb.WriteString("REQS")
+	for _, q := range reqs {
+		sb.WriteString(" " + common.Hex(q.Method) + ":" + common.Hex(q.URL.String()))
+	}
+	p := "0"
+	if plain {
+		p = "1"
+	}
+	in := fmt.Sprintf("T %s %s %s %s %s", p, common.Hex(base.Registry), common.Hex(base.Repository), common.Hex(src), common.Hex(opManifestDesc.Digest.String()))
+	for _, d := range dsts {
+		in += " " + common.Hex(d)
+	}
+	run.Case(id, in, sb.String())
+	run.Count("oras_tag")
+	if len(reqs) > 1 {
+		run.Count("oras_tag_put")
+		run.Nontrivial("T:" + base.String() + "|" + src + "|" + strings.Join(dsts, "|"))
+	}
+	prefix := "/v2/" + base.Repository + "/manifests/"
+	for i, q := range reqs {
+		wantMethod := "PUT"
+		if i == 0 {
+			wantMethod = "GET"
+		}
+		if q.Method != wantMethod || q.URL.Host != base.Host() || q.URL.User != nil || q.URL.RawQuery != "" || q.URL.Fragment != "" ||
+			!strings.HasPrefix(q.URL.EscapedPath(), prefix) || strings.Contains(q.URL.EscapedPath()[len(prefix):], "/") {
+			run.OracleFail(id, "op-url-slot", fmt.Sprintf("oras.TagN(%q -> %q) on %v sent %s %s as request %d", src, dsts, base, q.Method, q.URL, i), rep)
+			return
+		}
+	}
+	if namesOtherRepository(base, src) && len(reqs) > 0 {
+		run.OracleFail(id, "repo-foreign-path", fmt.Sprintf("oras.TagN(%q) on %v sent %s %s: the source names a path that is not the base repository", src, base, reqs[0].Method, reqs[0].URL), rep)
+	}
+	if wantSrc == "" {
+		return
+	}
+	run.Count("oras_tag_ground_truth")
+	if len(reqs) == 0 || reqs[0].URL.EscapedPath() != prefix+wantSrc {
+		run.OracleFail(id, "op-url-reference", fmt.Sprintf("oras.TagN(%q -> %q) on %v: first request is not GET %s%s (%d requests)", src, dsts, base, prefix, wantSrc, len(reqs)), rep)
+		return
+	}
+	if okDigest(wantSrc) && wantSrc != opManifestDesc.Digest.String() {
+		return // the registry serves another digest: the fetch fails, nothing is tagged
+	}
+	if len(reqs) != 1+len(wantDsts) {
+		run.OracleFail(id, "op-url-reference", fmt.Sprintf("oras.TagN(%q -> %q) on %v sent %d requests, want 1 GET + %d PUT", src, dsts, base, len(reqs), len(wantDsts)), rep)
+		return
+	}
+	for i, w := range wantDsts {
+		if reqs[i+1].URL.EscapedPath() != prefix+w {
+			run.OracleFail(id, "op-url-reference", fmt.Sprintf("oras.TagN(%q -> %q) on %v: PUT %d goes to %s, want %s%s", src, dsts, base, i, reqs[i+1].URL, prefix, w), rep)
+			return
+		}
 	}
 }
